@@ -152,6 +152,9 @@ def build_upload_tree(base: Path):
     for d in (up, outside, sibling, up / "dir", up / "dir" / "inner"):
         d.mkdir(parents=True)
     (up / "old.gmi").write_bytes(b"OLD-CONTENT")
+    for n in ("old.gmi.part", "new.gmi.part", "old.gmi.tmp", ".old.gmi.part", "old.gmi~", "y.gmi.part"):      # innocent neighbours with temp-looking names
+        (up / n).write_bytes(b"NEIGHBOUR-" + n.encode())
+    (up / "dir" / "y.gmi.part").write_bytes(b"NEIGHBOUR-dir-y")
     (up / "dir" / "x.gmi").write_bytes(b"X-CONTENT")
     (outside / "victim.txt").write_bytes(b"VICTIM")
     (sibling / "victim2.txt").write_bytes(b"VICTIM2")
